@@ -76,6 +76,7 @@ namespace ip {
 		s.m_forwarder.reset();
 		s.m_open = false;
 		s.m_bound_to = ip::tcp::endpoint();
+		s.m_user_bound_to = ip::tcp::endpoint();
 
 		if (m_bound_to != ip::tcp::endpoint())
 			m_io_service.rebind_socket(&s, this, m_bound_to);
@@ -270,6 +271,7 @@ namespace ip {
 
 	std::size_t tcp::socket::available(boost::system::error_code& ec) const
 	{
+		ec.clear();
 		if (!m_open)
 		{
 			ec = boost::system::error_code(error::bad_descriptor);
@@ -310,12 +312,13 @@ namespace ip {
 		return ret;
 	}
 
-	void tcp::socket::cancel(boost::system::error_code&)
+	void tcp::socket::cancel(boost::system::error_code& ec)
 	{
 		abort_recv_handlers();
 		abort_send_handlers();
 
 		abort_connect();
+		ec.clear();
 	}
 
 	// abort an outstanding connect: either it is waiting for the SYN+ACK, or
